@@ -482,61 +482,37 @@ func c05Sizes(c *Ctx, r *Report) {
 		r.fail("C05-R4-size-agreement", "encodeValue", "", "not found")
 		return
 	}
-	nW := 0
-	for _, ci := range allCalls(ev) {
-		f := ci.Common().StaticCallee()
-		if f == nil || f.String() != "encoding/binary.Write" {
-			continue
-		}
-		nW++
-		kind := -1
-		for k := 0; k <= 4; k++ {
-			if domByCallCmp(ev, ci.Block(), "Kind", int64(k)) {
-				kind = k
-			}
-		}
-		data := ci.Common().Args[2]
+	writes, wwhy := c.encodeValueWrites()
+	if wwhy != "" {
+		r.undecided("C05-R4-size-agreement", "encodeValue/one-write-per-arm", c.pos(ev.Pos()), wwhy)
+	}
+	expect := map[int]struct{ val, size string }{
+		kindUTC:   {"(iface (call fit.encodeTime (assert:Time p1)))", "4"},
+		kindLocal: {"(iface (conv:uint32 " + symBin(token.ADD, "(conv:int64 (call fit.encodeTime (assert:Time p1)))", "(conv:int64 (ext1 (call time.Zone (assert:Time p1))))") + "))", "4"},
+		kindLat:   {"(iface (fld0 (assert:Latitude p1)))", "4"},
+		kindLng:   {"(iface (fld0 (assert:Longitude p1)))", "4"},
+	}
+	for i, w := range writes {
 		sz := ""
-		switch d := data.(type) {
-		case *ssa.MakeInterface:
-			if b := basicOf(d.X.Type()); b != nil && width(b) > 0 {
-				sz = fmt.Sprint(width(b) / 8)
+		if e, ok := expect[w.kind]; ok {
+			if w.val == e.val {
+				sz = e.size
 			}
-		case *ssa.Phi:
-			// value param or encodeString result
-			okPhi := true
-			for _, e := range d.Edges {
-				switch x := e.(type) {
-				case *ssa.Parameter:
-				case *ssa.MakeInterface:
-					ex, ok := x.X.(*ssa.Extract)
-					if !ok {
-						okPhi = false
-						break
-					}
-					call, ok := ex.Tuple.(*ssa.Call)
-					if !ok || call.Common().StaticCallee() == nil || call.Common().StaticCallee().Name() != "encodeString" || !strings.HasSuffix(pathOf(call.Common().Args[1]), ".length") {
-						okPhi = false
-					}
-				default:
-					okPhi = false
-				}
-			}
-			if okPhi {
+		} else if w.kind == 0 {
+			if w.val == "p1" && !w.stringBranch {
 				sz = "dynamic"
 			}
-		case *ssa.Parameter:
-			sz = "dynamic"
+			if w.stringBranch && strings.HasPrefix(w.val, "(iface (ext0 (call fit.encodeString (assert:string p1) *p2.f") {
+				sz = "dynamic"
+			}
 		}
-		if prev, dup := emit[kind]; dup && prev != sz {
+		if prev, dup := emit[w.kind]; dup && prev != sz {
 			sz = "conflict"
 		}
-		emit[kind] = sz
-		// the order argument must be the encoder's
-		r.check(strings.HasSuffix(pathOf(ci.Common().Args[1]), ".arch"), "C05-R4-size-agreement", fmt.Sprintf("encodeValue/write-%d-order", nW), c.pos(ci.Pos()), "value written in the encoder's byte order", "a field value is written with a fixed byte order instead of the encoder's")
+		emit[w.kind] = sz
+		r.check(w.w == "*p0.f0" && w.arch == "*p0.f1", "C05-R4-size-agreement", fmt.Sprintf("encodeValue/write-%d-order", i+1), c.pos(ev.Pos()), "value written to the encoder's writer in the encoder's byte order", "a field value is written to "+w.w+" with order "+w.arch+" instead of the encoder's writer and byte order")
 	}
-	// every return nil in encodeValue is preceded by exactly one Write on its path: arms are disjoint switch cases
-	r.check(nW == 5 || nW == len(emit), "C05-R4-size-agreement", "encodeValue/one-write-per-arm", c.pos(ev.Pos()), fmt.Sprintf("%d kind arms, one binary.Write each", len(emit)), "encodeValue does not have exactly one binary.Write per kind arm")
+	r.check(wwhy == "" && len(emit) == 5, "C05-R4-size-agreement", "encodeValue/one-write-per-arm", c.pos(ev.Pos()), fmt.Sprintf("%d success paths over 5 kinds, exactly one binary.Write on each", len(writes)), "encodeValue does not perform exactly one binary.Write on every success path of each of the five kinds")
 	// (c) encodeString returns exactly size bytes
 	if fd := c.decl(c.fn(c.fit, "encodeString")); fd != nil {
 		okMake, okRet := false, true
@@ -1200,10 +1176,12 @@ func c05ArchHelper(c *Ctx) (map[string]string, bool) {
 
 // encodeDefCovers: the definition under which encodeFile writes the records of a list covers
 // every message of that list. Two recognised ways:
-//   (A) merged: the definition is built once per list by a counted loop over k = 0 .. v.Len()-1 of
-//       the same list value v, which calls getEncodeMesgDef on v.Index(k) and puts every one of its
-//       fields into a map M; the definition's field list is then rebuilt from a range over M;
-//   (B) per message: the definition is getEncodeMesgDef of the very message being written.
+//
+//	(A) merged: the definition is built once per list by a counted loop over k = 0 .. v.Len()-1 of
+//	    the same list value v, which calls getEncodeMesgDef on v.Index(k) and puts every one of its
+//	    fields into a map M; the definition's field list is then rebuilt from a range over M;
+//	(B) per message: the definition is getEncodeMesgDef of the very message being written.
+//
 // A definition carried over from an earlier message (written again only "when something
 // changed") is neither: a field that only a later message has is then silently not written.
 func encodeDefCovers(c *Ctx, r *Report, rule string) {
@@ -1342,4 +1320,66 @@ func encodeDefCovers(c *Ctx, r *Report, rule string) {
 	if n == 0 {
 		r.fail(rule, "encodeFile/definition-covers-list", c.pos(fn.Pos()), "no writeMesg call found in encodeFile")
 	}
+}
+
+// encodeValueWrites reads encoder.encodeValue through its path terms (helpers inlined, so a write
+// wrapper or a conversion helper makes no difference): every success path performs exactly one
+// binary.Write; per path the kind selected by the Kind() tests and the three arguments.
+type evWrite struct {
+	kind         int
+	w, arch, val string
+	stringBranch bool
+	conds        []string
+}
+
+func (c *Ctx) encodeValueWrites() ([]evWrite, string) {
+	fn := c.ssaFn(c.fn(c.fit, "encoder.encodeValue"))
+	if fn == nil {
+		return nil, "encoder.encodeValue not found"
+	}
+	o := symPathsOpaque(fn, 3, "encodeTime", "Kind", "BaseType", "encodeString")
+	if o.why != "" {
+		return nil, "not recognised: " + o.why
+	}
+	var out []evWrite
+	for _, p := range o.paths {
+		if len(p.rets) != 1 || p.rets[0] != "nil" {
+			continue // error paths
+		}
+		w := evWrite{kind: -1, conds: p.conds}
+		for _, cnd := range p.conds {
+			if strings.HasPrefix(cnd, "T:(== (call types.Kind ") {
+				parts := symSplit(cnd[3 : len(cnd)-1])
+				if len(parts) == 3 {
+					fmt.Sscanf(parts[2], "%d", &w.kind)
+				}
+			}
+			if strings.HasPrefix(cnd, "T:(is:string ") {
+				w.stringBranch = true
+			}
+		}
+		n := 0
+		for _, cl := range p.calls {
+			if !strings.HasPrefix(cl, "(call binary.Write ") {
+				continue
+			}
+			n++
+			parts := symSplit(cl[1 : len(cl)-1])
+			if len(parts) != 5 {
+				return nil, "binary.Write with unexpected arguments: " + cl
+			}
+			w.w, w.arch, w.val = parts[2], parts[3], parts[4]
+		}
+		if n != 1 {
+			return nil, fmt.Sprintf("a success path of encodeValue performs %d binary.Write calls (conditions %v)", n, p.conds)
+		}
+		if w.kind < 0 {
+			return nil, fmt.Sprintf("a success path is not selected by a Kind() test (conditions %v)", p.conds)
+		}
+		out = append(out, w)
+	}
+	if len(out) == 0 {
+		return nil, "no success path"
+	}
+	return out, ""
 }
